@@ -30,7 +30,7 @@
    implementation: every concurrent execution must have a linearisation (exact search) and must terminate. *)
 Require Import List ZArith Lia. Import ListNotations.
 Require Import IW.CC.KvLocks IW.CC.KvLocks_proofs IW.CC.LockOrder IW.CC.LockOrder_proofs.
-Require Import IW.CC.Sections IW.CC.Sections_proofs.
+Require Import IW.CC.Sections IW.CC.Sections_proofs IW.CC.Balance IW.CC.Balance_proofs.
 
 Theorem C07_no_deadlock_partial :
   forall (calls : list (list req)) (s : state),
@@ -167,3 +167,39 @@ Example C07_same_db_refused :
   compatible (outer ex_put0) (outer ex_put0) = false /\
   run_ops true ex_put0 ex_put0 [false; true] zero_store = None.
 Proof. split; vm_compute; reflexivity. Qed.
+
+(* ---- API calls are lock-balanced (CC/Balance.v) ----
+   In every reachable state of any number of threads running well-ranked acquire / release programs, a thread whose call
+   has returned holds no lock.  The lock programs of the paths of iwkv_db() are well ranked and balanced; the path of the
+   tree before 107860a (INCOMPATIBLE_DB_MODE returned under the exclusive lock) is neither, and with one more caller a
+   state is reachable in which nobody can move although the lock holder has returned.  On the implementation the explorer
+   (harness/h_preempt.c) checks after every call that the calling thread holds none of the interposed locks, and the
+   extracted `trace_balanced` judges the recorded lock events of the same call (scenario `dbrace`). *)
+Theorem C07_returned_call_holds_nothing :
+  forall (progs : list (list act)) (s : dstate) (t : dthread),
+    Forall (well_ranked []) progs -> dreach (fresh_threads progs) s -> In t s -> dprog t = [] -> dheld t = [].
+Proof. exact finished_holds_nothing. Qed.
+Print Assumptions C07_returned_call_holds_nothing.
+
+Theorem C07_iwkv_db_paths_balanced : Forall (fun p => well_ranked [] p /\ balanced p) iwkv_db_summaries.
+Proof. exact iwkv_db_summaries_ranked. Qed.
+Print Assumptions C07_iwkv_db_paths_balanced.
+
+Theorem C07_iwkv_db_prefix_refuted :
+  held_after [] db_lost_race_prefix = [(l_store, KvLocks.Wr)] /\ ~ balanced db_lost_race_prefix /\
+  ~ well_ranked [] db_lost_race_prefix /\
+  exists s, dreach (fresh_threads [db_lost_race_prefix; db_found]) s /\
+            (exists t, In t s /\ dprog t = [] /\ dheld t <> []) /\
+            (exists t, In t s /\ dprog t <> []) /\ forall i, dcan_step s i = false.
+Proof. exact iwkv_db_prefix_refuted. Qed.
+Print Assumptions C07_iwkv_db_prefix_refuted.
+
+Theorem C07_trace_balanced_iff : forall tr : list ev, trace_balanced tr = true <-> balanced (trace_prog tr).
+Proof. exact trace_balanced_iff. Qed.
+Print Assumptions C07_trace_balanced_iff.
+
+(* the recorded lock events of the loser of the `dbrace` scenario, after and before the fix, are the model's paths *)
+Example C07_dbrace_traces :
+  trace_balanced dbrace_loser_trace = true /\ trace_balanced dbrace_loser_trace_prefix = false /\
+  trace_prog dbrace_loser_trace = db_lost_race /\ trace_prog dbrace_loser_trace_prefix = db_lost_race_prefix.
+Proof. exact dbrace_traces. Qed.
